@@ -373,71 +373,107 @@ def _destructurings(fn, fl, min_targets=5):
 
 
 def _split_formats(ctx, pkg):
+    """The separator-split formats by the POSITION in the split record each value is read from, whatever the way the record is taken
+    apart: one starred destructuring (`idx, code, *rps, _, a, .. = line.split(":")[:14]`), direct indexing / slicing of the record
+    (`fields[9]`, `fields[2:4]`), a namedtuple over the fields (read as the plain tuple, pymodel.folded)."""
+    from ..valueflow import strip_transparent
+    NONE = ("const", None)
     for cls, lay in LAYOUT.items():
         file = pkg.cls(cls).file
         fn = _parser(pkg, cls)
         fl = Flow(fn, file)
         n = lay["n"]
-        # the destructuring
-        dest = [(a, v) for a, v in _destructurings(fn, fl, 3) if any(isinstance(e, ast.Starred) for e in a.targets[0].elts)]
-        if len(dest) != 1:
-            ctx.unrec("R3", f"{cls}:destructuring", (file, fn.lineno), f"expected one starred destructuring of the split record, found {len(dest)}")
+
+        def record(v):
+            """v as (<line>.split(sep) IR, number of leading fields kept | None) when v is the split record (possibly cut to its first N fields)"""
+            v = strip_transparent(simp(v))
+            b0 = match(("sub", V("sp"), ("slice", NONE, ("const", V("n")), NONE)), v)
+            sp, total = (strip_transparent(b0["sp"]), b0["n"]) if b0 and isinstance(b0["n"], int) else (v, None)
+            if sp[0] == "meth" and sp[2] == "split" and len(sp) == 5:
+                return sp, total
+            return None
+
+        def scalar(v):
+            """(record value, position, counted from the end?) of one field of the record"""
+            if v[0] == "item" and isinstance(v[2], int) and record(v[1]):
+                return strip_transparent(simp(v[1])), v[2]
+            if v[0] == "sub" and v[2][0] == "const" and isinstance(v[2][1], int) and not isinstance(v[2][1], bool) and record(v[1]):
+                return strip_transparent(simp(v[1])), v[2][1]
+            return None
+
+        def block(v):
+            """(record value, first field, last field + 1, star info | None) of a run of fields: a slice of the starred part of a destructuring or of the record itself"""
+            b = match(("sub", V("x"), ("slice", V("lo"), V("hi"), NONE)), v)
+            if not b or b["lo"][0] != "const" or b["hi"][0] != "const" or not isinstance(b["hi"][1], int) or not (b["lo"][1] is None or isinstance(b["lo"][1], int)):
+                return None
+            lo, hi = b["lo"][1] or 0, b["hi"][1]
+            if lo < 0 or hi < 0:
+                return None
+            x = strip_transparent(b["x"])
+            if x[0] == "item" and isinstance(x[2], tuple) and x[2][0] == "star" and record(x[1]):
+                return strip_transparent(simp(x[1])), x[2][1] + lo, x[2][1] + hi, x[2]
+            if record(x):
+                return strip_transparent(simp(x)), lo, hi, None
+            inner = block(x)            # a slice of a slice: `rps = fields[2:8]` .. `rps[0:2]`
+            if inner:
+                return inner[0], inner[1] + lo, min(inner[2], inner[1] + hi), inner[3]
+            return None
+        pos = _positions(fl, set(lay["fields"]))
+        seen = {}          # attribute -> (record value, position) | (record value, lo, hi, star)
+        for attr in lay["fields"]:
+            f = pos.get(attr)
+            if f is not None:
+                v, wraps = _unwrap(simp(f.value))
+                seen[attr] = (scalar(v), wraps, f, v)
+        for attr in ("reactants", "products"):
+            st = [f for f in fl.facts if f.kind == "attrstore" and f.target == attr and f.extra.get("obj") == SELF]
+            m = as_map(simp(st[-1].value)) if st else None
+            seen[attr] = (block(m[2]) if m else None, None, st[-1] if st else None, m[2] if m else None)
+        recs = {x[0][0] for x in seen.values() if x[0]}
+        if len(recs) != 1:
+            ctx.unrec("R3", f"{cls}:record", (file, fn.lineno), f"cannot identify the one split record the attributes are read from (found {len(recs)}): "
+                      + "; ".join(show(r)[:60] for r in sorted(recs, key=repr))[:200])
             continue
-        d, dv = dest[0]
-        elts = d.targets[0].elts
-        star = [i for i, e in enumerate(elts) if isinstance(e, ast.Starred)][0]
-        fixed = len(elts) - 1
-        src = show(dv)
-        # the record is <line>.split(sep), possibly cut to its first N fields
-        b0 = match(("sub", V("sp"), ("slice", ("const", None), ("const", V("n")), ("const", None))), dv)
-        sp = b0["sp"] if b0 else dv
-        total = b0["n"] if b0 and isinstance(b0["n"], int) else None
-        sep_ok = sp[0] == "meth" and sp[2] == "split" and sp[3] == (("const", lay["sep"]),) and not sp[4]
-        starlen = (total if total is not None else n) - fixed
-        ctx.check(sep_ok, "R3", f"{cls}:separator", (file, d.lineno), f"records are split at '{lay['sep']}'", found=src[-40:])
+        rec = recs.pop()
+        sp, total = record(rec)
+        src = show(rec)
+        star = next((x[0][3] for x in seen.values() if x[0] and len(x[0]) == 4 and x[0][3]), None)
+        from_end = any(x[0] and len(x[0]) == 2 and x[0][1] < 0 for x in seen.values())
+        sep_ok = sp[3] == (("const", lay["sep"]),) and not sp[4]
+        ctx.check(sep_ok, "R3", f"{cls}:separator", (file, fn.lineno), f"records are split at '{lay['sep']}'", found=src[-40:])
         if cls == "UMISTReaction":
-            ctx.check(total == n, "R3", f"{cls}:field-count", (file, d.lineno), f"the first {n} fields of a record are decoded", expected=f"[:{n}]", found=src[-12:])
-        want_star = lay["products"][1] - lay["reactants"][0]
-        ctx.check(starlen == want_star, "R3", f"{cls}:arity", (file, d.lineno),
-                  f"{fixed} named fields + {want_star} species fields = {n} fields of the format", expected=f"{n - want_star} named targets", found=f"{fixed} named targets")
-        # species slices
-        base0 = star
+            # positions counted from the end (the targets after a starred one) are right only when the record has exactly n fields
+            if star or from_end or total is not None:
+                ctx.check(total == n, "R3", f"{cls}:field-count", (file, fn.lineno), f"the first {n} fields of a record are decoded", expected=f"[:{n}]", found=src[-12:])
+            else:
+                ctx.ok("R3", f"{cls}:field-count", (file, fn.lineno), "every field is read by its position from the start of the record")
+        width = total if total is not None else n
+        if star:
+            fixed = star[2] - 1
+            want_star = lay["products"][1] - lay["reactants"][0]
+            ctx.check(width - fixed == want_star, "R3", f"{cls}:arity", (file, fn.lineno),
+                      f"{fixed} named fields + {want_star} species fields = {n} fields of the format", expected=f"{n - want_star} named targets", found=f"{fixed} named targets")
         for attr in ("reactants", "products"):
             lo, hi = lay[attr]
-            st = [f for f in fl.facts if f.kind == "attrstore" and f.target == attr]
-            ok = None
-            found = ""
-            if st:
-                m = as_map(simp(st[-1].value))
-                if m:
-                    base = m[2]
-                    found = show(base)[-60:]
-                    b = match(("sub", ("item", V("s"), V("star")), ("slice", V("lo"), V("hi"), ("const", None))), base)
-                    if b and isinstance(b["star"], tuple) and b["star"][0] == "star" and b["lo"][0] == "const" and b["hi"][0] == "const":
-                        l = b["lo"][1] if b["lo"][1] is not None else 0
-                        h = b["hi"][1]
-                        ok = (l + base0, (h or 0) + base0) == (lo, hi)
-            if ok is None:
-                ctx.unrec("R3", f"{cls}:{attr}:slice", (file, st[-1].line if st else fn.lineno), f"cannot see which fields of the record the {attr} are read from: {found or 'no store'}")
+            got, _, f, base = seen[attr]
+            where = (file, f.line if f is not None else fn.lineno)
+            if got is None or got[0] != rec:
+                ctx.unrec("R3", f"{cls}:{attr}:slice", where, f"cannot see which fields of the record the {attr} are read from: {show(base)[-60:] if base else 'no store'}")
             else:
-                ctx.check(ok, "R3", f"{cls}:{attr}:slice", (file, st[-1].line if st else fn.lineno),
-                          f"{attr} are fields {lo}..{hi - 1} of the record", expected=f"fields[{lo}:{hi}]", found=found)
-        # numeric fields
-        pos = _positions(fl, set(lay["fields"]))
+                ctx.check(got[1:3] == (lo, hi), "R3", f"{cls}:{attr}:slice", where, f"{attr} are fields {lo}..{hi - 1} of the record", expected=f"fields[{lo}:{hi}]",
+                          found=f"fields[{got[1]}:{got[2]}]  ({show(base)[-50:]})")
         for attr, (p, conv) in lay["fields"].items():
-            f = pos.get(attr)
-            if f is None:
-                ctx.bad("R5", f"{cls}:{attr}", (file, fn.lineno), f"self.{attr} is never assigned from the record")
+            if attr not in seen:
+                if any(isinstance(c, ast.Call) and isinstance(c.func, ast.Name) and c.func.id in ("setattr", "vars") for c in ast.walk(fn)):
+                    ctx.unrec("R5", f"{cls}:{attr}", (file, fn.lineno), f"no plain store into self.{attr}; attributes are set through setattr with a name this rule cannot read")
+                else:
+                    ctx.bad("R5", f"{cls}:{attr}", (file, fn.lineno), f"self.{attr} is never assigned from the record")
                 continue
-            v, wraps = _unwrap(simp(f.value))
-            k = v[2] if v[0] == "item" and isinstance(v[2], int) and v[1] == dv else None
-            if v[0] == "sub" and v[1] == dv and v[2][0] == "const" and isinstance(v[2][1], int):
-                k = v[2][1]                      # the record indexed directly
-            if k is not None and k < 0:
-                k = n + k
-            if k is None:
+            got, wraps, f, v = seen[attr]
+            if got is None or got[0] != rec:
                 ctx.unrec("R5", f"{cls}:{attr}", (file, f.line), f"cannot see which field of the record self.{attr} is read from: {show(v)[:80]}")
                 continue
+            k = got[1] if got[1] >= 0 else width + got[1]
             ctx.check(k == p and (conv is None or conv in wraps), "R5", f"{cls}:{attr}", (file, f.line),
                       f"self.{attr} = {conv or ''}(field {p})", expected=f"field {p} through {conv}", found=f"field {k} through {wraps}")
 
@@ -761,4 +797,87 @@ MUTANTS += [
 ]
 BENIGN += [
     {"name": "leeds-clip-by-length", "file": L, "old": "clip = react_string[stidx : stidx + len]", "new": "clip = react_string[stidx:][:len]"},
+]
+
+# ---- wave 2: the same layouts through tables, index arithmetic, records and helper pipelines
+_UM_OLD = '            idx, code, *rps, _, a, b, c, lt, ut = react_string.split(":")[:14]\n'
+_UM_NUM = ('            self.alpha = float(a)\n            self.beta = float(b)\n            self.gamma = float(c)\n            self.temp_min = float(lt)\n'
+           '            self.temp_max = float(ut)\n            self.idxfromfile = int(idx)\n            self.code = code\n')
+
+
+def _um_indexed(alpha=9, products="4:8"):
+    return [{"file": U, "old": _UM_OLD, "new": '            fields = react_string.split(":")\n            rps = fields[2:8]\n'},
+            {"file": U, "old": "for r in rps[0:2]", "new": "for r in fields[2:4]"}, {"file": U, "old": "for p in rps[2:6]", "new": f"for p in fields[{products}]"},
+            {"file": U, "old": _UM_NUM, "new": f'            self.alpha = float(fields[{alpha}])\n            self.beta = float(fields[10])\n            self.gamma = float(fields[11])\n'
+             '            self.temp_min = float(fields[12])\n            self.temp_max = float(fields[13])\n            self.idxfromfile = int(fields[0])\n            self.code = fields[1]\n'}]
+
+
+def _um_record(order="idx code r1 r2 p1 p2 p3 p4 nte alpha beta gamma tmin tmax"):
+    return [{"file": U, "old": "class UMISTReaction(Reaction):\n", "new": f'from collections import namedtuple\n_Fields = namedtuple("_Fields", "{order}")\n\n\nclass UMISTReaction(Reaction):\n'},
+            {"file": U, "old": _UM_OLD, "new": '            rec = _Fields(*react_string.split(":")[:14])\n            rps = rec[2:8]\n'},
+            {"file": U, "old": _UM_NUM, "new": '            self.alpha = float(rec.alpha)\n            self.beta = float(rec.beta)\n            self.gamma = float(rec.gamma)\n'
+             '            self.temp_min = float(rec.tmin)\n            self.temp_max = float(rec.tmax)\n            self.idxfromfile = int(rec.idx)\n            self.code = rec.code\n'}]
+
+
+_KI_OLD_W = "            rlen = 34  # length of the string containing reactants\n            plen = 56  # length of the string containing products\n"
+_KI_TAIL = "            a, b, c, _, _, _, itype, lt, ut, form, idx, _, _ = react_string[\n                rlen + plen :\n            ].split()\n"
+
+
+def _ki_headtail(rend=34, plen=56):
+    return [{"file": K, "old": _KI_OLD_W, "new": f"            rend = {rend}\n            pend = rend + {plen}\n            head, tail = react_string[:pend], react_string[pend:]\n"},
+            {"file": K, "old": "for r in react_string[:rlen].split()", "new": "for r in head[:rend].split()"},
+            {"file": K, "old": "for p in react_string[rlen : rlen + plen].split()", "new": "for p in head[rend:].split()"},
+            {"file": K, "old": _KI_TAIL, "new": "            a, b, c, _, _, _, itype, lt, ut, form, idx, _, _ = tail.split()\n"}]
+
+
+_LE_LISTS = ('        list_label = [\n            "idx",\n            "reac",\n            "prod",\n            "a",\n            "b",\n            "c",\n            "lt",\n            "ht",\n            "type",\n        ]\n'
+             '        list_strlen = [\n            5,\n            30,\n            50,\n            8,\n            9,\n            10,\n            5,\n            5,\n            3,\n        ]\n')
+_LE_LOOP = "            stidx = 0\n            for label, len in zip(list_label, list_strlen):\n                clip = react_string[stidx : stidx + len]\n"
+
+
+def _le_table(widths=(5, 30, 50, 8, 9, 10, 5, 5, 3), clip="react_string[edge - width : edge]"):
+    cols = ", ".join(f'("{l}", {w})' for l, w in zip(LEEDS_LABELS, widths))
+    return [{"file": L, "old": "from enum import IntEnum\n", "new": "from enum import IntEnum\nfrom itertools import accumulate\n"},
+            {"file": L, "old": "    def _parse_string(self, react_string) -> None:\n        self.source = \"leeds\"\n", "new": f"    _columns = ({cols})\n\n    def _parse_string(self, react_string) -> None:\n        self.source = \"leeds\"\n"},
+            {"file": L, "old": _LE_LISTS, "new": ""},
+            {"file": L, "old": _LE_LOOP, "new": "            edges = accumulate(width for _, width in self._columns)\n            for (label, width), edge in zip(self._columns, edges):\n                clip = " + clip + "\n"},
+            {"file": L, "old": "\n                stidx += len\n", "new": ""}]
+
+
+_UC_OLD = ("            reactants = [r for r in rpspec[0:3] if r not in kwlist]\n            products = [p for p in rpspec[3:7] if p not in kwlist]\n\n"
+           "            self.reactants = [\n                self._create_species(r) for r in reactants if self._create_species(r)\n            ]\n"
+           "            self.products = [\n                self._create_species(p) for p in products if self._create_species(p)\n            ]\n")
+
+
+def _uc_pipeline(kw='[*self.reactant2type.keys(), "NAN"]', second="rpspec[3:7]"):
+    return [{"file": UC, "old": _UC_OLD, "new": f"            self.reactants = self._named_species(rpspec[0:3])\n            self.products = self._named_species({second})\n\n"
+             f"    def _named_species(self, columns):\n        kwlist = {kw}\n        names = [name for name in columns if name not in kwlist]\n"
+             "        return [self._create_species(name) for name in names if self._create_species(name)]\n"}]
+
+
+_KR_SIDE = ('                elif key in self._species_columns:\n                    if self._create_species(value):\n'
+            '                        target = getattr(self, self._species_columns[key])\n                        target.append(self._create_species(value))\n')
+_KR_CLS = '    def _parse_string(self, react_string) -> None:\n        self.source = "krome"\n'
+MUTANTS += [
+    {"name": "umist-indexed-alpha-from-field-8", "edits": _um_indexed(alpha=8), "rules": ["R5"]},
+    {"name": "umist-indexed-products-short", "edits": _um_indexed(products="4:7"), "rules": ["R3"]},
+    {"name": "umist-namedtuple-beta-gamma-swapped", "edits": _um_record("idx code r1 r2 p1 p2 p3 p4 nte alpha gamma beta tmin tmax"), "rules": ["R5"]},
+    {"name": "kida-head-tail-product-block-short", "edits": _ki_headtail(plen=55), "rules": ["R4"]},
+    {"name": "leeds-class-table-accumulate-wrong-width", "edits": _le_table(widths=(5, 30, 50, 8, 9, 10, 5, 5, 4)), "rules": ["R4"]},
+    {"name": "leeds-class-table-clip-from-edge", "edits": _le_table(clip="react_string[edge : edge + width]"), "rules": ["R4"]},
+    {"name": "uclchem-pipeline-kwlist-lacks-nan", "edits": _uc_pipeline(kw="list(self.reactant2type)"), "rules": ["R2"]},
+    {"name": "uclchem-pipeline-products-short", "edits": _uc_pipeline(second="rpspec[3:6]"), "rules": ["R3"]},
+    {"name": "krome-species-table-getattr-unfiltered", "edits": [
+        {"file": KR, "old": _KR_CLS, "new": '    _species_columns = {"r": "reactants", "p": "products"}\n\n' + _KR_CLS},
+        {"file": KR, "old": _KR_RP, "new": _KR_SIDE.replace("                    if self._create_species(value):\n", "                    if value:\n")}], "rules": ["R2"]},
+]
+BENIGN += [
+    {"name": "umist-record-indexed", "edits": _um_indexed()},
+    {"name": "umist-record-namedtuple", "edits": _um_record()},
+    {"name": "kida-head-tail-cut", "edits": _ki_headtail()},
+    {"name": "leeds-class-table-accumulate-edges", "edits": _le_table()},
+    {"name": "uclchem-species-pipeline-helper", "edits": _uc_pipeline()},
+    {"name": "krome-species-table-getattr", "edits": [
+        {"file": KR, "old": _KR_CLS, "new": '    _species_columns = {"r": "reactants", "p": "products"}\n\n' + _KR_CLS},
+        {"file": KR, "old": _KR_RP, "new": _KR_SIDE}]},
 ]
